@@ -70,6 +70,7 @@ func errResult(e *Event) *Term {
 }
 
 func runC18(c *Ctx) {
+	defer checkContextPropagated(c, "C18.R12")
 	defer checkFactoriesWireCollaborators(c, "C18.R11")
 	defer checkCanHandleExact(c, "C18.R10")
 	defer checkSessionCloneDeep(c, "C18.R9")
